@@ -50,6 +50,25 @@ def run(ctx):
     d = os.path.join(common.VERIF, "corpus", "c15")
     n, bad = markers.check_markers(d)
     ctx.obligation("whole tool on corpus/c15: %d marked uses of look-alike sites (same-named methods on different types, method vs function of one name, same-named fields/params/results/globals, same-named files in two packages), each with a twin of opposite nilability: reported iff nil reaches it" % n, n > 0 and not bad)
+    # the same corpus under go vet -vettool (dependencies come from export data: positions of their objects are only
+    # line-accurate there, so objects declared on one line share a token.Pos): what the in-process driver reports in
+    # a package's own files must be reported there too
+    from . import c03 as drivers
+    a, ra = drivers.inproc(d, False)
+    v, vtext = drivers.govet(d)
+    vbad = []
+    if a is None:
+        vbad.append("in-process run failed: %s" % ra)
+    else:
+        for x in sorted(a - v):
+            rep = [dg["pkg"] for dg in ra["diags"] if (dg["file"], dg["line"]) == (x[0], x[1])]
+            if rep and any(rp.endswith(os.path.dirname(x[0])) for rp in rep):
+                vbad.append("%s:%d (%s) is reported by the in-process driver while analysing its own package %s, but not under go vet -vettool: the site has another identity when its package comes from export data" % (x[0], x[1], x[2][:80], rep))
+        for x in sorted(v - a):
+            vbad.append("%s:%d is reported under go vet -vettool only: %s" % (x[0], x[1], x[2][:100]))
+    ctx.obligation("corpus/c15 under go vet -vettool (one process per package, dependencies from export data): every finding the in-process driver reports in a package's own files is reported, and nothing else (%d findings)" % len(a or []), not vbad)
+    for b in vbad[:3]:
+        ctx.violation("govet-identity", "C15 fails on the real tool: %s\nreplay: cd corpus/c15 && go vet -vettool=$PWD/../../bin/nilaway ./...\n" % b)
     nsites, ibad, runs = 0, [], 0
     mods = [d, os.path.join(common.VERIF, "corpus", "c10")]
     for m in mods:
